@@ -52,9 +52,12 @@ class UpdatenInstruction(MichelsonInstruction, prim='UPDATE', args_len=1):
     @classmethod
     def execute(cls, stack: MichelsonStack, stdout: List[str], context: AbstractContext):
         element, pair = cast(Tuple[MichelsonType, PairType], stack.pop2())
-        pair.assert_type_in(PairType)
         index = cls.args[0].get_int()  # type: ignore
-        res = pair.update_comb(index, element)
+        if index == 0:
+            res = element  # UPDATE 0 replaces the whole value; neither side has to be a pair
+        else:
+            pair.assert_type_in(PairType)
+            res = pair.update_comb(index, element)
         stack.push(res)
         stdout.append(format_stdout(cls.prim, [element, pair], [res], index))  # type: ignore
         return cls(stack_items_added=1)
